@@ -307,6 +307,15 @@ class ApiRig:
             self.loop.settle()
             self.at = t.result()
 
+    def burn_packet_ids(self, next_id: int) -> None:
+        """consume packet ids through the public header factory until the next message gets `next_id`"""
+        reg = sockrun.registry(self.gen)
+        probe = self.inst.version_message() if hasattr(self.inst, "version_message") else None
+        for _ in range(600):
+            h = reg.header_factory.create_from_message(probe, 0)
+            if (h.packet_id + 1) % 256 == next_id % 256:
+                return
+
     def sock_connected(self) -> bool:
         return self.net.current() is not None
 
